@@ -21,3 +21,11 @@ package mpbgv
 
 //@ copy RefreshProtocol.ShallowCopy
 //@   copied MaskedTransformProtocol
+
+// ---- shares to encryption (property C16): the output is (aggregate, crp) at the level of the CRP,
+// ---- whatever level the receiver ciphertext had ----
+//@ afunc ShareToEncProtocol.GetEncryption
+//@   property C16
+//@   requires len(opOut.Value) == 2
+//@   ensures implies(isnil(err), val(opOut.Value[0]) == old(val(c0Agg.Value)) && val(opOut.Value[1]) == old(val(crp.Value)))
+//@   ensures implies(isnil(err), len(opOut.Value[0].Coeffs) == len(c0Agg.Value.Coeffs) && len(opOut.Value[1].Coeffs) == len(crp.Value.Coeffs))
